@@ -97,8 +97,19 @@ class S3LockProviderBase(LockProvider):
         # Guarded by _state_lock: accessed from both the owner and heartbeat threads.
         self._etag: Optional[str] = None
         self._state_lock = threading.Lock()
-        # Renewal counter written into the lock body (see S3LockProvider._renew_once).
+        # Write counter embedded in the lock body (see _next_body).
         self._renewals = 0
+
+    def _next_body(self) -> bytes:
+        """Lock-object content for the next write by this instance: the owner
+        id plus a counter that never repeats. EVERY write - acquisition,
+        takeover, renewal - must produce bytes (hence an ETag) this object
+        never had before: a breaker's If-Match carries the ETag it saw when it
+        judged the lease lapsed, and both a renewal and a release followed by a
+        re-acquisition through the same instance used to reproduce exactly
+        that ETag, so the stale takeover PUT replaced a live lock."""
+        self._renewals += 1
+        return f"{self.lock_id}:{self._renewals}".encode('utf-8')
 
     def _owns(self, content: str) -> bool:
         """Whether lock-object content names this instance as the owner.
@@ -258,7 +269,7 @@ class S3LockProvider(S3LockProviderBase):
             resp = self.s3.put_object(
                 Bucket=self.bucket,
                 Key=self.key,
-                Body=self.lock_id.encode('utf-8'),
+                Body=self._next_body(),
                 IfNoneMatch='*'
             )
             with self._state_lock:
@@ -302,7 +313,7 @@ class S3LockProvider(S3LockProviderBase):
             put_resp = self.s3.put_object(
                 Bucket=self.bucket,
                 Key=self.key,
-                Body=self.lock_id.encode('utf-8'),
+                Body=self._next_body(),
                 IfMatch=etag,
             )
             with self._state_lock:
@@ -329,13 +340,11 @@ class S3LockProvider(S3LockProviderBase):
         # hash of the body, so re-writing the bare lock_id left the ETag as it
         # was, and a breaker that had seen the lease lapsed at its HEAD could not
         # notice - through If-Match - a renewal landing before its takeover PUT.
-        self._renewals += 1
-        body = f"{self.lock_id}:{self._renewals}"
         try:
             resp = self.s3.put_object(
                 Bucket=self.bucket,
                 Key=self.key,
-                Body=body.encode('utf-8'),
+                Body=self._next_body(),
                 IfMatch=etag,
             )
             with self._state_lock:
